@@ -81,3 +81,102 @@ Example C09_regression_F2 :
   snapPolygon g32 [[(-1, 10000000000); (50000000000, 10000000000); (50000000000, 50000000000)]] [5%nat]
      (mkConfig false true false) = Ok [].
 Proof. vm_compute. repeat split; reflexivity. Qed.
+
+From Texel Require Import Prelude.GoLoop Prelude.GoAssoc Index.MachineInt Index.GoTop Index.ProofsGenDescent Index.ProofsGenIndexTop.
+From Texel.Gen Require Import FindGen DescentGen IndexTopGen.
+
+(** ** tie G2, whole bodies: [InsertPolygon], [InsertPoint], [InsertCoord], [floorDiv] of pointindex.go and
+    [FromGeomPoint] / [FromGeomOrd] / the accessors of package intgeom REGENERATED from source on this run
+    (gen/IndexTopGen.v, translator/indextop.go).
+
+    REGENERATED: every statement of these functions (the pre-sizing loop of InsertPolygon included).  [ofFpt fo] is the
+    regenerated float -> integer conversion of a vertex ([gen_FromGeomPoint]: int64(f * 10^Precision) per ordinate,
+    with the float operations abstract: the theorem holds for EVERY [fo : floatops]).
+    (1) InsertPoint on an index that refines the hot set [hs]: the vertex is converted, its address is the model's
+        [deepestCoord] (floor division, machine integers), and either it is inside the grid and the index then refines
+        [hs ++ [address]] (the model's insertPoint), or the result is the OutsideGridError of that address and the index
+        is unchanged.
+    (2) InsertPolygon = that, for every vertex of every ring in order, stopping at the first OutsideGridError: if the
+        model's fold [foldM (insertPoint g)] over the integer images accepts all vertices the result is nil and the index
+        refines the model's hot set; if not, the model says OutsideGrid, the result is the OutsideGridError of the first
+        address outside ([insertAll]) and the index refines the hot set of the vertices BEFORE it (they are not undone).
+    (3) the same from the empty index: the model's [insertPolygon].
+    Hypotheses: deepest level <= 32; resolution > 0; [pt_fits]: ordinate - extent minimum fits int64 for the vertices
+    (no wrap in InsertPoint's subtraction).
+    MODELLED (trusted mappings, listed at the top of gen/IndexTopGen.v): float64 as an abstract type with abstract
+    operations; int64 arithmetic with wrap-around (MachineInt.v / GoTop.v); error values as [option (goerr ..)];
+    methods that change [ix.quadrants] return its final value; go-spatial's [Polygon.LinearRings()] = the polygon;
+    range loops = range_loop, the level loop on fuel deepestLevel + 2; [insertCoord] as regenerated in DescentGen.v
+    (C02_source_tie_insert_coord) through the projection [gen_descent_ix]. *)
+Theorem C09_source_tie_insert_polygon :
+  (forall (fo : floatops) g hs ix (v : FPt fo),
+     ixT_rel g (hotLevels g hs) ix -> (gdeep g <= 32)%nat -> 0 < gres g -> pt_fits g (ofFpt fo v) ->
+     let c := deepestCoord g (ofFpt fo v) in
+     if inGridCoord g c
+     then exists Q', gen_InsertPoint fo ix v = Ok (Q', None) /\
+                     ixT_rel g (hotLevels g (hs ++ [c])) (PointIndexT_with_quadrants ix Q')
+     else gen_InsertPoint fo ix v = Ok (PointIndexT_quadrants ix, outside_error ix c)) /\
+  (forall (fo : floatops) g hs ix (polygon : list (list (FPt fo))),
+     ixT_rel g (hotLevels g hs) ix -> (gdeep g <= 32)%nat -> 0 < gres g ->
+     Forall (fun v => pt_fits g (ofFpt fo v)) (concat polygon) ->
+     let P := map (map (ofFpt fo)) polygon in
+     exists Q' e, gen_InsertPolygon fo ix polygon = Ok (Q', e) /\
+       match foldM (insertPoint g) (concat P) hs with
+       | Ok hs' => e = None /\ ixT_rel g (hotLevels g hs') (PointIndexT_with_quadrants ix Q')
+       | Err er => er = OutsideGrid /\
+                   exists hs1 c, insertAll g hs (concat P) = (hs1, Some c) /\ inGridCoord g c = false /\ e = outside_error ix c /\
+                                 ixT_rel g (hotLevels g hs1) (PointIndexT_with_quadrants ix Q')
+       end) /\
+  (forall (fo : floatops) g (polygon : list (list (FPt fo))),
+     (gdeep g <= 32)%nat -> 0 < gres g -> Forall (fun v => pt_fits g (ofFpt fo v)) (concat polygon) ->
+     let P := map (map (ofFpt fo)) polygon in
+     exists Q' e, gen_InsertPolygon fo (gen_empty_indexT g) polygon = Ok (Q', e) /\
+       match insertPolygon g P with
+       | Ok hs => e = None /\ ixT_rel g (hotLevels g hs) (PointIndexT_with_quadrants (gen_empty_indexT g) Q')
+       | Err er => er = OutsideGrid /\
+                   exists hs1 c, insertAll g [] (concat P) = (hs1, Some c) /\ inGridCoord g c = false /\
+                                 e = outside_error (gen_empty_indexT g) c /\
+                                 ixT_rel g (hotLevels g hs1) (PointIndexT_with_quadrants (gen_empty_indexT g) Q')
+       end).
+Proof.
+  split; [exact gen_InsertPoint_spec |]. split; [exact gen_InsertPolygon_model | exact gen_InsertPolygon_insertPolygon].
+Qed.
+Print Assumptions C09_source_tie_insert_polygon.
+
+(** the regenerated codec and accessors of package intgeom are the ones the statements above use; floorDiv with
+    machine integers is floor division (division by zero: the panic) *)
+Theorem C09_source_tie_intgeom : forall fo : floatops,
+  (forall z, gen_ToGeomOrd fo z = toF fo z) /\
+  (forall f, gen_FromGeomOrd fo f = ofF fo f) /\
+  (forall p, gen_Point_ToGeomPoint fo p = toFpt fo p) /\
+  (forall p, gen_FromGeomPoint fo p = ofFpt fo p) /\
+  (forall l, gen_FromGeomLine fo l = ofFline fo l) /\
+  (forall p : pt, gen_Point_X p = fst p /\ gen_Point_Y p = snd p) /\
+  (forall e : extent, gen_Extent_MinX (ext_tuple e) = eminx e /\ gen_Extent_MinY (ext_tuple e) = eminy e /\
+                      gen_Extent_MaxX (ext_tuple e) = emaxx e /\ gen_Extent_MaxY (ext_tuple e) = emaxy e) /\
+  (forall e : extent, is_i64 (emaxx e - eminx e) -> gen_Extent_XSpan (ext_tuple e) = emaxx e - eminx e) /\
+  (forall a b, 0 < b -> is_i64 a -> gen_floorDiv64 fo a b = Ok (a / b)) /\
+  (forall a, gen_floorDiv64 fo a 0 = Err DivZero).
+Proof.
+  intro fo. destruct (generated_intgeom_is_model fo) as (H1 & H2 & H3 & H4 & H5 & H6 & H7 & H8).
+  repeat (split; [assumption |]). split; [exact (gen_floorDiv64_spec fo) | exact (gen_floorDiv64_zero fo)].
+Qed.
+Print Assumptions C09_source_tie_intgeom.
+
+(** the regenerated code runs (float operations: exact decimal fixed point, [fo_fixed]; the float 0.5 is 5000000000): on the
+    32 x 32 grid of pixel size 0.5, a triangle inside is inserted (no error, the model accepts it too); with a vertex 0.2
+    left of the border the result is the OutsideGridError of the address (-1, 20) (F2: not silently moved to pixel 0),
+    the vertex BEFORE it stays in the index (level 5 has one quadrant), the model says OutsideGrid *)
+Example C09_source_tie_insert_polygon_example :
+  let run := fun poly => gen_InsertPolygon fo_fixed (gen_empty_indexT g32) poly in
+  let inside := [[(10000000000, 10000000000); (50000000000, 10000000000); (50000000000, 50000000000)]] in
+  let outside := [[(50000000000, 50000000000); (-2000000000, 100000000000); (50000000000, 10000000000)]] in
+  (match run inside with Ok (Q, None) => map (fun l => length (gm_get_or N.eqb [] Q l)) [0; 1; 5]%N | _ => [] end) = [1; 1; 3]%nat /\
+  is_ok (insertPolygon g32 (map (map (ofFpt fo_fixed)) inside)) = true /\
+  (match run outside with
+   | Ok (Q, Some (ErrOf e)) => Some (OutsideGridError_deepestX e, OutsideGridError_deepestY e, OutsideGridError_deepestSize e,
+                                     length (gm_get_or N.eqb [] Q 5%N))
+   | _ => None end) = Some (-1, 20, 32%N, 1%nat) /\
+  insertPolygon g32 (map (map (ofFpt fo_fixed)) outside) = Err OutsideGrid /\
+  gen_InsertPolygon fo_fixed (PointIndexT_with_deepestRes (gen_empty_indexT g32) 0) inside = Err DivZero.
+Proof. vm_compute. repeat split; reflexivity. Qed.
